@@ -275,7 +275,10 @@ class S3TapeCassette(TapeCassette):
         # and when a start date is given we can look for specific folders until today (or end_time)
         if start_date:
             end_date = end_date or datetime.utcnow()
-            days = [(start_date + timedelta(days=i)) for i in range((end_date - start_date).days + 1)]
+            # Count calendar days and not elapsed 24 hours periods, otherwise the last day of the window is skipped when
+            # the end date time of day is earlier than the start date time of day
+            days_count = (end_date.date() - start_date.date()).days + 1
+            days = [(start_date + timedelta(days=i)) for i in range(days_count)]
             id_prefixes = ['{}/{}/'.format(category, day.strftime(self.DAY_FORMAT)) for day in days]
         else:
             id_prefixes = ['{}/'.format(category)]
